@@ -32,8 +32,11 @@ class Sched:
     """baton scheduler: logical threads are real threads, exactly one runs at a time; at every scheduling point the next
     thread to run is a solver-explored choice among the runnable ones"""
 
-    def __init__(self, p):
+    def __init__(self, p, preempt_bound=None):
         self.p = p
+        self.preempt_bound = preempt_bound
+        self.preemptions = 0
+        self.last = None
         self.threads = []
         self.cur = None
         self.main_evt = _threading.Event()
@@ -81,8 +84,14 @@ class Sched:
                         t.evt.set()
                     raise Deadlock([t.name for t in self.threads if not t.done])
                 return
-            i = self.p.choose(len(runnable), "next") if len(runnable) > 1 else 0
-            t = runnable[i]
+            if self.preempt_bound is not None and self.last in runnable and self.preemptions >= self.preempt_bound:
+                t = self.last                      # preemption budget used up: the running thread continues
+            else:
+                i = self.p.choose(len(runnable), "next") if len(runnable) > 1 else 0
+                t = runnable[i]
+                if self.last in runnable and t is not self.last:
+                    self.preemptions += 1
+            self.last = t
             t.blocked_on = None
             self.cur = t
             core.CUR = core_cur
@@ -139,15 +148,21 @@ SCENARIOS = {
     "bounded-put-vs-put": (1, [[("put", "a"), ("put", "b")], [("put", "c")]]),
     "bounded-get-vs-put": (1, [[("get", "a"), ("get", "b")], [("put", "c")]]),
 }
+# three threads, at most two preemptions (a switch away from a thread that could have continued)
+SCENARIOS3 = {
+    "three-same-uri": (-1, [[("get", "a")], [("get", "a")], [("get", "a")]]),
+    "three-mixed": (-1, [[("get", "a")], [("get", "b")], [("get", "bad")]]),
+    "three-bounded": (1, [[("put", "a")], [("put", "b")], [("get", "c")]]),
+}
 
 
 def h_sched(name):
-    size, programs = SCENARIOS[name]
+    size, programs = SCENARIOS[name] if name in SCENARIOS else SCENARIOS3[name]
 
     def h(p):
-        sched = Sched(p)
+        sched = Sched(p, None if name in SCENARIOS else 2)
         constructed = []
-        mtime = {"a": 10, "b": 10, "bad": 10}
+        mtime = {"a": 10, "b": 10, "c": 10, "bad": 10}
         clock = [100.0]
 
         class FakeTemplate:
@@ -264,10 +279,10 @@ def on_sched(p, r, exc, acc):
     acc.vcs += 1
     if r["lk"]._mutex.locked():
         acc.candidate(kind="mutex-left-locked", input=desc, detail="")
-    if name == "same-uri-first-request":
+    if name in ("same-uri-first-request", "three-same-uri"):
         acc.vcs += 1
         got = [v for op, u, v in flat if op == "get"]
-        if len(r["constructed"]) != 1 or got[0] is not got[1]:
+        if len(r["constructed"]) != 1 or any(g is not got[0] for g in got):
             acc.candidate(kind="compiled-more-than-once", input=desc, detail="%d constructions, same object: %s" % (len(r["constructed"]), got[0] is got[1]))
     if name == "modify-then-get-vs-get":
         acc.vcs += 1
@@ -293,9 +308,9 @@ KIND = __KIND__
 import threading, types, time
 import mako.lookup as LK, mako.util as UT
 from mako import exceptions as EXC
-from props.C16 import SCENARIOS
+from props.C16 import SCENARIOS, SCENARIOS3
 print("scenario:", CASE["scenario"]); print("schedule:", CASE["schedule"])
-size, programs = SCENARIOS[CASE["scenario"]]
+size, programs = (SCENARIOS.get(CASE["scenario"]) or SCENARIOS3[CASE["scenario"]])
 order = [s.split(":")[0] for s in CASE["schedule"]]
 turn = {"i": 0}
 cv = threading.Condition()
@@ -311,7 +326,7 @@ def point(what):
         turn["i"] += 1
         cv.notify_all()
 constructed = []
-mtime = {"a": 10, "b": 10, "bad": 10}; clock = [100.0]
+mtime = {"a": 10, "b": 10, "c": 10, "bad": 10}; clock = [100.0]
 class FakeTemplate:
     def __init__(self, text=None, filename=None, uri=None, lookup=None, module_filename=None, **kw):
         point("Template.begin")
@@ -371,9 +386,9 @@ for op, uri, val in flat:
     print(op, uri, "->", val if isinstance(val, Exception) else "template")
     if isinstance(val, Exception) and not (uri == "bad" and isinstance(val, EXC.CompileException)) and not isinstance(val, EXC.TemplateLookupException):
         bad = bad or "%s(%s) raised %s: %s" % (op, uri, type(val).__name__, val)
-if CASE["scenario"] == "same-uri-first-request" and not bad:
+if CASE["scenario"] in ("same-uri-first-request", "three-same-uri") and not bad:
     got = [v for op, u, v in flat if op == "get"]
-    if len(constructed) != 1 or got[0] is not got[1]: bad = "the template was compiled %d times / callers got different objects" % len(constructed)
+    if len(constructed) != 1 or any(g is not got[0] for g in got): bad = "the template was compiled %d times / callers got different objects" % len(constructed)
 if CASE["scenario"] == "modify-then-get-vs-get" and not bad:
     t0 = [v for op, u, v in results[0] if op == "get"][0]
     print("T0 modified the file (mtime now %s) and then got a template compiled from mtime %s" % (mtime["a"], getattr(t0, "read_mtime", None)))
@@ -400,7 +415,7 @@ def run(check, tier):
     setup()
     check.encode(*kernel())
     check.assume(
-        "two logical threads run the real get_template/_check/_load/put_template and LRUCache code under a baton scheduler; scheduling points: "
+        "two logical threads (thorough: also three, with at most two preemptions) run the real get_template/_check/_load/put_template and LRUCache code under a baton scheduler; scheduling points: "
         "every lock acquire / wait / release (the lookup's mutex is a model lock), os.stat and os.path.isfile, begin and end of Template "
         "construction, every LRU timestamp read and every key read of the LRU eviction sort; at each point the next thread is a solver-explored "
         "choice, so EVERY schedule over these points is executed",
@@ -411,6 +426,10 @@ def run(check, tier):
     jobs = []
     for name in SCENARIOS:
         jobs.append(("C16-" + name, h_sched(name), on_sched, "all schedules of scenario %s" % name, dict(scenario=SCENARIOS[name].__repr__()), ("asserted",)))
+    if tier == "thorough":
+        for name in SCENARIOS3:
+            jobs.append(("C16-" + name, h_sched(name), on_sched, "three threads, every schedule with at most 2 preemptions: %s" % name,
+                         dict(scenario=SCENARIOS3[name].__repr__(), preemption_bound=2), ("asserted",)))
     for j in jobs:
         driver.register(j[0], j[1], j[2])
     cands = []
